@@ -21,7 +21,8 @@ META = {
                              "mean_prediction, MetricFrame by_group/overall of selection_rate and true_positive_rate, demographic_parity_difference/ratio, "
                              "equalized_odds_difference, equal_opportunity_ratio, derived-metric objects selection_rate_difference, true_positive_rate_ratio and a "
                              "make_derived_metric(selection_rate, group_min) object shared by all calls of a path (weighted call first, unweighted afterwards)",
-                    "thorough": "n<=4, sum<=9, 3 groups"},
+                    "thorough": "everything with n<=3 rows (multiplicities 1..3, up to 3 groups); n=4: a seeded sample of 50 multiplicity structures per family, "
+                                "the scaling identities with symbolic factor for all group layouts, with symbolic weights for the base metrics only"},
     "trusted_base": ["z3", "symx", "confusion_matrix / unique stubs (validated)"],
     "stubs": ["_base_metrics.skm.confusion_matrix", "_base_metrics.np.unique", "nanops._ensure_numeric"],
     "assumptions": ["weights > 0", "labels in {0,1}", "exact reals"],
@@ -33,6 +34,9 @@ MANIFEST = {
     "level_note": "Trusted: z3, symx, sklearn confusion_matrix stub (validated). n<=3/4, multiplicities<=3.",
     "design_ref": "DESIGN.md section 6 C11",
 }
+
+
+_DEFAULT_DECIDE_MS = core.DECIDE_TIMEOUT_MS
 
 
 def setup():
@@ -47,6 +51,7 @@ def prechecks():
 
 def jobs(tier, seed):
     js = []
+    rnd = random.Random(seed)
     nmax, smax, gmax = (3, 6, 2) if tier == "quick" else (4, 9, 3)
     for n in range(1, nmax + 1):
         for ks in itertools.product([1, 2, 3], repeat=n):
@@ -66,8 +71,21 @@ def jobs(tier, seed):
                             continue
                         if tier == "quick" and mode == "scale-w" and fam == "frame" and n == 3:
                             continue  # symbolic weights x 3 symbolic rows inside MetricFrame: path feasibility alone takes 10-15 min (thorough tier only)
+                        if mode == "scale-w" and fam != "base" and n == 4:
+                            continue  # outside both tiers (stated): MetricFrame / fairness metrics with 4 symbolic rows AND 4 symbolic weights
                         js.append({"id": f"{fam}-{mode}-k{''.join(map(str, ks))}-g{''.join(map(str, g))}", "family": fam, "mode": mode, "ks": list(ks), "groups": list(g),
                                    "cw": [[1, 2, 3, 5][(i + len(js)) % 4] for i in range(n)]})
+    if tier != "quick":
+        # n = 4 multiplicity structures: a seeded sample of 50 per family (2700 structures do not fit the budget); everything with n <= 3 is kept
+        small = [j for j in js if len(j["ks"]) <= 3 or j["mode"] != "mult"]
+        big = [j for j in js if len(j["ks"]) == 4 and j["mode"] == "mult"]
+        pick = []
+        for fam in ("base", "frame", "fair"):
+            fb = [j for j in big if j["family"] == fam]
+            pick += rnd.sample(fb, min(50, len(fb)))
+        js = small + pick
+    # the expensive jobs (fully symbolic weights inside MetricFrame, 3 rows) go last so that they cannot starve the others
+    js.sort(key=lambda j: (j["mode"] == "scale-w" and j["family"] != "base" and len(j["ks"]) >= 3))
     return js
 
 
@@ -131,6 +149,8 @@ def run_job(job, deadline):
     acc = JobAcc(job)
     ks, groups, fam = job["ks"], job["groups"], job["family"]
     n = len(ks)
+    # per-decision solver cap: 5 s for the heavy symbolic-weight jobs (an undecided branch is reported as unexplored, never as success)
+    core.DECIDE_TIMEOUT_MS = 5000 if (job["mode"] == "scale-w" and fam != "base" and n >= 3) else _DEFAULT_DECIDE_MS
     sf = ["g%d" % g for g in groups]
     rep = [i for i in range(n) for _ in range(ks[i])]
     calls = _calls(fam, fm, sf)
